@@ -42,25 +42,26 @@ Definition in_i64 (z : Z) : bool := (i64_min <=? z) && (z <=? i64_max).
 Definition base_ok (base : Z) : bool := (base =? 0) || ((2 <=? base) && (base <=? 36)).
 
 Definition is_x (b : N) : bool := (b =? 120)%N || (b =? 88)%N.
+Definition is_digit_of (base : N) (b : N) : bool := match digit_in base b with Some _ => true | None => false end.
 
-Definition strtoll_full (s : list N) (base : Z) : option Z :=
-  if negb (base_ok base) then None else
-  let s1 := skip_spaces s in
-  let '(neg, s2) := match s1 with
-                    | 45%N :: r => (true, r)
-                    | 43%N :: r => (false, r)
-                    | _ => (false, s1)
-                    end in
-  let '(b, s3) :=
-    match s2 with
-    | 48%N :: x :: h :: r =>
-        if ((base =? 0) || (base =? 16)) && is_x x && (match digit_in 16 h with Some _ => true | None => false end)
-        then (16%N, h :: r)
-        else if base =? 0 then (8%N, s2) else (Z.to_N base, s2)
-    | 48%N :: _ => if base =? 0 then (8%N, s2) else (Z.to_N base, s2)
-    | _ => if base =? 0 then (10%N, s2) else (Z.to_N base, s2)
-    end in
-  let '(ds, rest) := span_digits b s3 in
+(* optional sign *)
+Definition sign_of (s : list N) : bool * list N :=
+  match s with
+  | c :: r => if (c =? 45)%N then (true, r) else if (c =? 43)%N then (false, r) else (false, s)
+  | [] => (false, [])
+  end.
+
+(* "0x"/"0X" followed by a hexadecimal digit *)
+Definition has_hex_prefix (s : list N) : bool :=
+  match s with
+  | c :: x :: h :: _ => (c =? 48)%N && is_x x && is_digit_of 16 h
+  | _ => false
+  end.
+Definition leading_zero (s : list N) : bool := match s with c :: _ => (c =? 48)%N | [] => false end.
+
+(* digits, full consumption, range *)
+Definition convert (neg : bool) (b : N) (s : list N) : option Z :=
+  let '(ds, rest) := span_digits b s in
   match ds, rest with
   | [], _ => None                      (* no conversion: endp == s *)
   | _, _ :: _ => None                  (* *endp != 0 *)
@@ -69,6 +70,14 @@ Definition strtoll_full (s : list N) (base : Z) : option Z :=
       let r := if neg then - v else v in
       if in_i64 r then Some r else None (* ERANGE *)
   end.
+
+Definition strtoll_full (s : list N) (base : Z) : option Z :=
+  if negb (base_ok base) then None else
+  let s1 := skip_spaces s in
+  let '(neg, s2) := sign_of s1 in
+  if ((base =? 0) || (base =? 16)) && has_hex_prefix s2 then convert neg 16 (skipn 2 s2)
+  else if base =? 0 then convert neg (if leading_zero s2 then 8%N else 10%N) s2
+  else convert neg (Z.to_N base) s2.
 
 (* a few values straight from the C standard's examples and from libyara's tests *)
 Example strtoll_0x10_16 : strtoll_full [48;120;49;48]%N 16 = Some 16. Proof. vm_compute. reflexivity. Qed.
